@@ -1309,7 +1309,7 @@ func (a *FuncAn) isNonNil(s *State, v ssa.Value) bool {
 		}
 		return a.registryValueNonNil(s, x)
 	case *ssa.UnOp:
-		return a.registryValueNonNil(s, x) || a.onceLoadNonNil(x)
+		return a.registryValueNonNil(s, x) || a.onceLoadNonNil(x) || a.initTableNonNil(x)
 	case *ssa.Phi:
 		// all edges statically non-nil
 		for _, e := range x.Edges {
